@@ -6,6 +6,7 @@ import (
 	"fmt"
 	"io"
 	"regexp"
+	"regexp/syntax"
 	"sort"
 	"strconv"
 	"strings"
@@ -258,7 +259,10 @@ func New(rules Rules) (*StatefulDefinition, error) {
 			)
 			var match = backrefReplace.FindStringSubmatch(rule.Pattern)
 			if match == nil || len(match[1])%2 == 0 {
-				re, err = regexp.Compile(pattern)
+				// The pattern must be a regular expression on its own, otherwise it could escape the anchoring group.
+				if _, err = syntax.Parse(rule.Pattern, syntax.Perl); err == nil {
+					re, err = regexp.Compile(pattern)
+				}
 				if err != nil {
 					return nil, fmt.Errorf("lexer: %s.%d: %s", key, i, err)
 				}
@@ -481,6 +485,9 @@ func BackrefRegex(backrefCache *sync.Map, input string, groups []string) (*regex
 		// concatenate the leading \\\\ which are already escaped to the quoted match.
 		return rematch[1][:len(rematch[1])-1] + regexp.QuoteMeta(groups[n])
 	})
+	if err == nil {
+		_, err = syntax.Parse(pattern, syntax.Perl)
+	}
 	if err == nil {
 		re, err = regexp.Compile("^(?:" + pattern + ")")
 	}
